@@ -745,7 +745,15 @@ func (a *avsRun) switchTaskContract() {
 	}
 	old := a.taskAcct[addr]
 	var next *sim.Account
-	if len(a.released) > 0 && r.Intn(2) == 0 {
+	var inUse []*sim.Account // task contracts other registered AVSs are using right now (hostile: must be refused)
+	for _, x := range a.avs {
+		if xa := low(x.Eth.String()); xa != addr && a.reg[xa] && a.taskAcct[xa] != nil && a.taskAcct[xa] != old {
+			inUse = append(inUse, a.taskAcct[xa])
+		}
+	}
+	if len(inUse) > 0 && r.Intn(3) == 0 {
+		next = inUse[r.Intn(len(inUse))]
+	} else if len(a.released) > 0 && r.Intn(2) == 0 {
 		next = a.released[r.Intn(len(a.released))]
 	} else {
 		next = sim.NewAccount(fmt.Sprintf("task-%s-switch-%d", a.hist, len(a.released)+len(a.tasks)))
